@@ -65,15 +65,50 @@ def run(ctx, R, tier):
         R.check(True, "C05-R1", "%s|contained" % root,
                 "escape set of root computed (%d item(s), %d not exempt)" % (len(items), bad), f.loc())
 
-    # ---------------------------------------------------------------- R6 (shared with C06)
+    # ---------------------------------------------------------------- R6 (termination of the peer-controlled annotation walk)
     from ..report import Rules
     from . import c06
     R6 = Rules("C06")
     c06.run(ctx, R6, tier)
     for o in R6.obs:
-        if o.key in ("C06-R3|decoder|chunk-length-unsigned", "C06-R5|add_payload|declared-length-advance"):
-            R.add("C05-R6", o.key.split("|", 1)[1], o.desc + " (otherwise a hostile length field can keep the parse loop from terminating: "
-                  "the worker / the multiplex thread spins forever)", o.ok, o.loc, o.detail)
+        if o.key == "C06-R3|decoder|chunk-length-unsigned":
+            R.add("C05-R6", "decoder|chunk-length-unsigned", o.desc + " (a negative length would keep the cursor from advancing: the worker / the multiplex "
+                  "thread would spin forever on one hostile message)", o.ok, o.loc, o.detail)
+    ap = ctx.fn("Pyro5.protocol.ReceivingMessage.add_payload")
+    apcfg = ctx.cfg(ap)
+    aprd = ctx.rd(ap)
+    wl = [n for n in walk_no_nested(ap.node) if isinstance(n, ast.While)]
+    if len(wl) != 1 or not isinstance(wl[0].test, ast.Compare):
+        raise AnalysisError("add_payload: annotation walk loop vanished")
+    cur = unparse(wl[0].test.left)
+    incs = [n for n in walk_no_nested(wl[0]) if isinstance(n, ast.AugAssign) and unparse(n.target) == cur]
+    ok = len(incs) >= 1
+    why = "the loop never advances its cursor"
+    for inc in incs:
+        v = inc.value
+        parts = [v.left, v.right] if isinstance(v, ast.BinOp) and isinstance(v.op, ast.Add) else [v]
+        pos_const = any(isinstance(x, ast.Constant) and isinstance(x.value, int) and x.value > 0 for x in parts)
+        rest_ok = True
+        for x in parts:
+            if isinstance(x, ast.Constant):
+                continue
+            nonneg = isinstance(x, ast.Call) and unparse(x.func) == "len"
+            if isinstance(x, ast.Name):
+                defs = aprd.reaching(apcfg.nodes_for(inc)[0], x.id)
+                nonneg = bool(defs) and all(d.value is not None and isinstance(d.value, ast.Call) and
+                                            (unparse(d.value.func) in ("len", "int.from_bytes") or dotted(d.value.func) in ("struct.unpack", "struct.unpack_from"))
+                                            for d in defs)
+            rest_ok = rest_ok and nonneg
+        if not (isinstance(inc.op, ast.Add) and pos_const and rest_ok):
+            ok = False
+            why = "`%s` does not advance the cursor by a positive constant plus a non-negative amount" % unparse(inc)
+    if ok:
+        ln = [n for n in apcfg.nodes if n.kind == "test" and n.ast is wl[0]]
+        inn = [n for i in incs for n in apcfg.nodes_for(i)]
+        body_first = [e.dst for n in ln for e in n.succ if e.kind == "true"]
+        ok = apcfg.all_paths_pass(ln, lambda n: n in inn, edge_ok=lambda e: e.kind != "exc" and not (e.src in ln and e.kind == "false"), targets=ln)
+        why = "an iteration of the annotation walk can return to the loop test without advancing the cursor"
+    R.check(ok, "C05-R6", "add_payload|cursor-always-advances", "every iteration advances the cursor by a positive constant plus a non-negative amount", ap.loc(wl[0]), why)
 
     # ---------------------------------------------------------------- R1b
     for root in ROOTS:
